@@ -42,6 +42,60 @@ int main(void) { int fails = 0, checks = 0;
 '''
 
 
+def detection_models(chk):
+    """every host model of the families below x both byte orders; returns (models, wrong)"""
+    import subprocess, tempfile, itertools
+    src = open(os.path.join(REPO, 'w2c2', 'w2c2_base.h')).read()
+    try:
+        start = src.index('#define WASM_LITTLE_ENDIAN')
+        end = src.index('#endif /* WASM_ENDIAN */', start) + len('#endif /* WASM_ENDIAN */')
+    except ValueError:
+        chk.violation('detection|block-not-found', {'kind': 'config'}, 'the byte-order detection block of w2c2_base.h (from "#define WASM_LITTLE_ENDIAN" to "#endif /* WASM_ENDIAN */") was not found')
+        return 0, 0
+    wd = tempfile.mkdtemp(prefix='c19det.', dir='/dev/shm')
+    with open(os.path.join(wd, 'probe.c'), 'w') as f:
+        f.write(src[start:end] + '\nDETECTED WASM_ENDIAN\n')
+    os.makedirs(os.path.join(wd, 'le')); os.makedirs(os.path.join(wd, 'be'))
+    for e, v in (('le', '__LITTLE_ENDIAN'), ('be', '__BIG_ENDIAN')):
+        with open(os.path.join(wd, e, 'endian.h'), 'w') as f:      # what glibc's <endian.h> provides on a host of that byte order
+            f.write('#define __LITTLE_ENDIAN 1234\n#define __BIG_ENDIAN 4321\n#define __PDP_ENDIAN 3412\n#define __BYTE_ORDER %s\n' % v)
+    be_arch = ['__sparc', '__sparc__', '_POWER', '__powerpc__', '__ppc__', '__hpux', '__hppa', '__hppa__', '_MIPSEB', '__MIPSEB', '__MIPSEB__', '__AARCH64EB__', '__THUMBEB__', '__ARMEB__', '__ARM_BIG_ENDIAN', '__s390__']
+    le_arch = ['__i386__', '_M_IX86', '__alpha__', '__alpha', '_M_ALPHA', '__ia64', '__ia64__', '_M_IA64', '__amd64', '__amd64__', '_M_AMD64', '__x86_64', '__x86_64__', '_M_X64', '_M_ARM', '_M_ARM64',
+               '__AARCH64EL__', '__THUMBEL__', '__ARMEL__', '_MIPSEL', '__MIPSEL', '__MIPSEL__', '__bfin__']
+    models = []
+    for E in ('le', 'be'):
+        arch = le_arch if E == 'le' else be_arch
+        order = '__ORDER_LITTLE_ENDIAN__' if E == 'le' else '__ORDER_BIG_ENDIAN__'
+        gcc46 = ['-D__ORDER_LITTLE_ENDIAN__=1234', '-D__ORDER_BIG_ENDIAN__=4321', '-D__ORDER_PDP_ENDIAN__=3412', '-D__BYTE_ORDER__=' + order]
+        one = ['-D_LITTLE_ENDIAN'] if E == 'le' else ['-D_BIG_ENDIAN']
+        both = ['-D_LITTLE_ENDIAN=1234', '-D_BIG_ENDIAN=4321', '-D_BYTE_ORDER=' + ('_LITTLE_ENDIAN' if E == 'le' else '_BIG_ENDIAN')]     # BSD / newlib <machine/endian.h>
+        apple = ['-D__LITTLE_ENDIAN__=1'] if E == 'le' else ['-D__BIG_ENDIAN__=1']
+        models.append((E, 'compiler with __BYTE_ORDER__ (GCC >= 4.6, clang)', gcc46))
+        models.append((E, 'compiler with __BYTE_ORDER__ + glibc', gcc46 + ['-D__GLIBC__=2']))
+        models.append((E, 'glibc <endian.h>, compiler without __BYTE_ORDER__', ['-D__GLIBC__=2']))
+        models.append((E, 'only the macro of the own byte order (_LITTLE_ENDIAN / _BIG_ENDIAN)', one))
+        models.append((E, '__LITTLE_ENDIAN__ / __BIG_ENDIAN__ of the compiler only', apple))
+        for a_ in arch:
+            models.append((E, 'architecture macro %s only' % a_, ['-D%s=1' % a_]))
+            # BSD and newlib headers define BOTH _LITTLE_ENDIAN and _BIG_ENDIAN (as values) on every host
+            models.append((E, 'both _LITTLE_ENDIAN and _BIG_ENDIAN defined as values + %s' % a_, both + ['-D%s=1' % a_]))
+        models.append((E, 'both _LITTLE_ENDIAN and _BIG_ENDIAN defined as values + compiler macro', both + apple))
+        models.append((E, 'both _LITTLE_ENDIAN and _BIG_ENDIAN defined as values + __BYTE_ORDER__', both + gcc46))
+    wrong = 0
+    for E, desc, defs in models:
+        r = subprocess.run(['gcc', '-E', '-P', '-undef', '-nostdinc', '-I', os.path.join(wd, E)] + defs + [os.path.join(wd, 'probe.c')], stdout=subprocess.PIPE, stderr=subprocess.PIPE)
+        out = r.stdout.decode()
+        got = 'error' if r.returncode != 0 else ('le' if 'DETECTED 0' in out else 'be' if 'DETECTED 1' in out else 'undetermined')
+        if got != E:
+            wrong += 1
+            chk.violation('detection|%s-host-detected-as-%s|%s' % (E, got, desc.split(' + __')[0].split(' %s' % '__')[0][:40]), {'kind': 'config', 'host': E, 'model': desc, 'macros': defs, 'detected': got, 'stderr': r.stderr.decode()[-300:],
+                          'how_to_replay': 'python3 checks/c19.py quick (detection_models)'},
+                          'host model "%s" with byte order %s: the detection chain of w2c2_base.h arrives at %s' % (desc, {'le': 'little-endian', 'be': 'big-endian'}[E], got))
+    import shutil
+    shutil.rmtree(wd, ignore_errors=True)
+    return len(models), wrong
+
+
 def main(tier):
     chk = Check('C19', 'exploration', tier)
     w2c2 = build_w2c2('plain'); build_ref()
@@ -133,6 +187,11 @@ def main(tier):
     except mclib.MachineryError as e:
         print('MACHINERY-ERROR C19: %s' % e)
         return 2
+    # the endianness DETECTION chain of the runtime header, preprocessed under models of hosts: (true byte order, the macros its toolchain and
+    # system headers define).  The chain must arrive at the host's byte order for every model.
+    nmodels, wrong = detection_models(chk)
+    chk.add(evaluations=nmodels)
+    parts['endianness detection chain under host models'] = {'models': nmodels, 'wrong': wrong}
     # the WASI host writes its results into guest memory too: the same scenario with wasi.c built for the little-endian and for the forced
     # big-endian configuration; every field read back through the typed loads of the same build must have the same value (wasix/beprobe.c)
     import wasix
@@ -175,7 +234,7 @@ def main(tier):
                        'read f32/f64 immediates with exactly one byte reversal and leave integer immediates alone; the swap_* helpers reverse exactly their width; '
                        'the mutex-based RMW path additionally under the controlled scheduler (2 threads, same cell, all interleavings, linearizability on the big-endian image); the WASI host (wasi.c) built for both configurations runs one scenario (args, environ, prestat, open/write/seek/read through iovecs, fdstat, filestat, readlink, clocks, fd_readdir complete and with every buffer length that cuts the second record) and every field it stored into guest memory is read back through the typed loads of the same build: values must agree')
     chk.sample({'case': 'i64.store32 offset=1 at base 0xfffd, then i32.load16_s at 0xffff', 'mode': 'forced big endian'})
-    chk.assumptions += ['real big-endian hardware is not available: the endianness detection #if chain is not exercised; the portable swap macros are exercised by the plain load/store flavours only']
+    chk.assumptions += ['real big-endian hardware is not available; the endianness detection chain is evaluated under 92 host models (sets of predefined macros), not on real toolchains; the portable swap macros are exercised by the plain load/store flavours only']
     return chk.finish()
 
 
